@@ -192,6 +192,14 @@ func gen(r *vlib.R, n int, tier string, emit func(string)) {
 		emit(fmt.Sprintf("lease pack %d", k))
 		n--
 	}
+	for i := 0; i < 6; i++ {
+		pat := make([]byte, 2+r.Intn(10))
+		for j := range pat {
+			pat[j] = vlib.Pick(r, []byte{'w', 'w', 'n'})
+		}
+		emit("pool subq " + string(pat))
+		n--
+	}
 	// 2. shared upstream lookups
 	shares := 2
 	if thorough {
@@ -230,7 +238,7 @@ func gen(r *vlib.R, n int, tier string, emit func(string)) {
 		}
 	}
 	// 5. live server, real sockets, many clients (the search for an interleaving)
-	runs, nu, nt, per := 1, 14, 5, 150
+	runs, nu, nt, per := 2, 20, 6, 250
 	if thorough {
 		runs, nu, nt, per = 6, 30, 10, 420
 	}
